@@ -162,6 +162,10 @@ pub fn gen_cfg(rng: &mut Rng, small: bool) -> FutCfg {
                 roles,
                 nth: 1 + rng.below(5) as u32,
                 events: 5 + rng.below(80) as u32,
+                until: None,
+                gate: None,
+                cap_us: 200,
+                max_pauses: 0,
             });
         }
     }
